@@ -55,6 +55,9 @@ type c07Sub struct {
 	// a per-stream request carried over to the stream that replaces it: it decides the replacement's first offer only
 	// (the new downstream starts without a per-stream request), later pushes follow the general request
 	inherit map[string][]string
+	// the same request, remembered for as long as the replacement lives: the statement does not say whether a request
+	// made for one stream governs its replacement once or for good, so both readings are accepted for such a pair
+	inherited map[string][]string
 	// a per-stream request made while an announcement is still pending: whether it, the general request or (for a
 	// pending replacement) the replaced stream's request decides the next offer depends on which push arrives first;
 	// the statement says nothing about per-stream requests, so such a (subscriber, stream) pair is not compared while
@@ -325,8 +328,28 @@ func (w *c07World) check(step string, actor *simClient, selfOnly bool) {
 			continue
 		}
 		// held == model
+		// pairs governed by an inherited per-stream request: either reading (see c07Sub.inherited)
+		either := func(id string) bool {
+			r, ok := sub.inherited[id]
+			st := w.streams[id]
+			if !ok || st == nil || st.ended || w.where[sc] != st.group {
+				return false
+			}
+			var got []string
+			if h, held := sub.held[id]; held {
+				got = h.tracks
+			}
+			for _, sel := range [][]string{c07Select(w.effReq(sub, st), st), c07Select(r, st)} {
+				if len(sel) == len(got) && (len(got) == 0 || reflect.DeepEqual(sel, got)) {
+					return true
+				}
+			}
+			t.Fatalf("C07 after %s: %s holds tracks %v of stream %s; neither its request %v nor the request %v it had made for the replaced stream selects that [%s]", step, sc.id, got, id,
+				w.effReq(sub, st), r, strings.Join(w.log[max(0, len(w.log)-16):], " ; "))
+			return true
+		}
 		for id, sel := range sub.mheld {
-			if sub.loose[id] {
+			if sub.loose[id] || either(id) {
 				continue
 			}
 			h, ok := sub.held[id]
@@ -342,6 +365,9 @@ func (w *c07World) check(step string, actor *simClient, selfOnly bool) {
 			if _, ok := sub.mheld[id]; !ok {
 				st := w.streams[id]
 				if sub.loose[id] && !st.ended && w.where[sc] == st.group {
+					continue
+				}
+				if either(id) {
 					continue
 				}
 				if sub.optional[id] && !st.ended && w.where[sc] == st.group {
@@ -449,7 +475,7 @@ func c07Machine(t *rapid.T, timer bool, rec *verifkit.Rec) {
 		}
 		for _, sc := range w.s.cs {
 			w.subs[sc] = &c07Sub{sc: sc, pcs: map[string]*webrtc.PeerConnection{}, held: map[string]*c07Held{}, closes: map[string]int{}, offers: map[string]int{},
-				req: map[string][]string{}, perStr: map[string][]string{}, mheld: map[string][]string{}, optional: map[string]bool{}, inherit: map[string][]string{}, loose: map[string]bool{}}
+				req: map[string][]string{}, perStr: map[string][]string{}, mheld: map[string][]string{}, optional: map[string]bool{}, inherit: map[string][]string{}, inherited: map[string][]string{}, loose: map[string]bool{}}
 		}
 		defer func() {
 			if timer {
@@ -742,6 +768,7 @@ func c07Machine(t *rapid.T, timer bool, rec *verifkit.Rec) {
 								// the per-stream request is inherited by the stream that replaces it
 								if _, held := o.mheld[replaced]; held {
 									o.inherit[id] = r
+									o.inherited[id] = r
 								}
 								delete(o.perStr, replaced)
 							}
